@@ -59,6 +59,14 @@ const indepLib = `  dA:
     cmds:
       - for: {var: S}
         cmd: 'printf "{{.K}}|fV|{{.ITEM}}\\n"'
+  nA:
+    dir: ./a
+    dotenv: ['.env']
+    cmds: ['printf "{{.K}}|nA|$DV\\n"']
+  nB:
+    dir: ./b
+    dotenv: ['.env']
+    cmds: ['printf "{{.K}}|nB|$DV\\n"']
   rQ:
     requires: {vars: [R]}
     cmds: ['printf "{{.K}}|rQ|{{.R}}\\n"']
@@ -111,6 +119,8 @@ func runIndep(content string) ([]string, error) {
 	real, _ := filepath.EvalSymlinks(dir)
 	os.MkdirAll(filepath.Join(dir, "a"), 0o755)
 	os.MkdirAll(filepath.Join(dir, "b"), 0o755)
+	os.WriteFile(filepath.Join(dir, "a", ".env"), []byte("DV=env-a\n"), 0o644)
+	os.WriteFile(filepath.Join(dir, "b", ".env"), []byte("DV=env-b\n"), 0o644)
 	os.WriteFile(filepath.Join(dir, "Taskfile.yml"), []byte(content), 0o644)
 	var out bytes.Buffer
 	lw := &syncWriter{w: &out}
